@@ -216,7 +216,13 @@ class Protocol:
 
     def inv(self, s):
         active = z3.Sum([z3.If(z3.Or(s.pc[w] == NEED_POP, s.pc[w] == HAVE_WORK, s.pc[w] == AFTER_WORK, s.pc[w] == DROPPING), 1, 0) for w in range(self.T)])
-        c = [s.mk.tc == self.T, s.mk.n >= 0, s.mk.n <= CAP, s.mk.oc >= 0, z3.Implies(s.mk.open, s.mk.oc == active), z3.Implies(z3.Not(s.mk.open), s.mk.n == 0)]
+        c = [s.mk.tc == self.T, s.mk.n >= 0, s.mk.n <= CAP, s.mk.oc >= 0, s.mk.oc <= self.T, z3.Implies(s.mk.open, s.mk.oc == active), z3.Implies(z3.Not(s.mk.open), s.mk.n == 0),
+             # on a closed market open_count never exceeds the workers that have not left yet
+             z3.Implies(z3.Not(s.mk.open), s.mk.oc <= active)]
+        # nobody sleeps un-notified unless somebody else is still going to move (deadlock freedom)
+        sleeping = z3.Or(*[z3.And(s.pc[w] == WAITING, z3.Not(s.notif[w])) for w in range(self.T)])
+        woken = z3.Or(*[z3.And(s.pc[w] == WAITING, s.notif[w]) for w in range(self.T)])
+        c.append(z3.Implies(sleeping, z3.Or(active >= 1, woken)))
         for w in range(self.T):
             c += [z3.Or(*[s.pc[w] == k for k in (0, 1, 2, 3, 4, 5)]), s.L[w] >= 0, s.L[w] <= self.lmax,
                   z3.Implies(z3.Or(s.pc[w] == NEED_POP, s.pc[w] == WAITING, s.pc[w] == DONE, s.pc[w] == DROPPING), s.L[w] == 0),
